@@ -343,6 +343,114 @@ pub fn set_current_prop(p: &str) {
     let _ = CURRENT_PROP.set(p.to_string());
 }
 
+// ------------------------------------------------------------------ native crashes
+//
+// The library recurses on the native stack in several places; a seeded change (or a defect) that corrupts the heap can
+// make such a recursion endless, and a native stack overflow cannot be caught by catch_unwind: the process receives
+// SIGSEGV (or SIGABRT from the runtime's abort) and used to die without a verdict. The in-process checks install a
+// handler that reports the case in progress as a violation and exits 1. It only uses async-signal-safe calls and
+// memory prepared beforehand.
+mod crash {
+    use std::cell::{Cell, UnsafeCell};
+    use std::sync::atomic::{AtomicBool, Ordering};
+
+    pub const CASE_MAX: usize = 3000;
+    thread_local! {
+        pub static CASE: UnsafeCell<[u8; CASE_MAX]> = const { UnsafeCell::new([0u8; CASE_MAX]) };
+        pub static CASE_LEN: Cell<usize> = const { Cell::new(0) };
+    }
+    pub static mut PROP: [u8; 8] = [0; 8];
+    pub static mut PATH: [u8; 512] = [0; 512];
+    pub static mut PATH_LEN: usize = 0;
+    static CRASHED: AtomicBool = AtomicBool::new(false);
+
+    fn put(buf: &mut [u8], at: &mut usize, bytes: &[u8]) {
+        for b in bytes {
+            if *at < buf.len() {
+                buf[*at] = *b;
+                *at += 1;
+            }
+        }
+    }
+
+    pub extern "C" fn handler(sig: libc::c_int) {
+        if CRASHED.swap(true, Ordering::SeqCst) {
+            unsafe { libc::_exit(1) };
+        }
+        let mut out = [0u8; 2 * CASE_MAX + 1024];
+        let mut n = 0usize;
+        let prop_all: &[u8; 8] = unsafe { &*std::ptr::addr_of!(PROP) };
+        let prop: &[u8] = &prop_all[..3];
+        put(&mut out, &mut n, b"{\"property\":\"");
+        put(&mut out, &mut n, prop);
+        put(&mut out, &mut n, b"\",\"key\":\"native-crash\",\"class\":\"native-crash\",\"observed\":\"abort\",\"detail\":{\"signal\":");
+        let digits = [b'0' + (sig / 10) as u8, b'0' + (sig % 10) as u8];
+        put(&mut out, &mut n, &digits);
+        put(&mut out, &mut n, b",\"note\":\"the process received this signal while the case was being evaluated (native stack exhaustion or an abort inside the library)\",\"session\":[\"");
+        let len = CASE_LEN.with(|l| l.get()).min(CASE_MAX);
+        CASE.with(|c| {
+            let whole: &[u8; CASE_MAX] = unsafe { &*c.get() };
+            let case = &whole[..len];
+            for b in case {
+                match *b {
+                    b'"' => put(&mut out, &mut n, b"\\\""),
+                    b'\\' => put(&mut out, &mut n, b"\\\\"),
+                    b'\n' => put(&mut out, &mut n, b"\\n"),
+                    0..=31 => put(&mut out, &mut n, b" "),
+                    x => put(&mut out, &mut n, &[x]),
+                }
+            }
+        });
+        put(&mut out, &mut n, b"\"]}}\n");
+        unsafe {
+            let path = std::ptr::addr_of!(PATH) as *const libc::c_char;
+            let fd = libc::open(path, libc::O_CREAT | libc::O_WRONLY | libc::O_TRUNC, 0o644);
+            if fd >= 0 {
+                libc::write(fd, out.as_ptr() as *const libc::c_void, n);
+                libc::close(fd);
+            }
+            let mut line = [0u8; 900];
+            let mut m = 0usize;
+            put(&mut line, &mut m, b"VIOLATION property=");
+            put(&mut line, &mut m, prop);
+            put(&mut line, &mut m, b" replay=");
+            let path_all: &[u8; 512] = &*std::ptr::addr_of!(PATH);
+            put(&mut line, &mut m, &path_all[..PATH_LEN]);
+            put(&mut line, &mut m, b"\n  key=native-crash class=native-crash observed=abort (signal ");
+            put(&mut line, &mut m, &digits);
+            put(&mut line, &mut m, b": native stack exhaustion or abort inside the library while the case in the replay file was evaluated)\n");
+            libc::write(1, line.as_ptr() as *const libc::c_void, m);
+            libc::_exit(1);
+        }
+    }
+}
+
+/// Install the native-crash reporter (see `mod crash`). Only the in-process property checks call this; the isolated
+/// workers and the C19 cells must die the ordinary way, because their parent observes how they died.
+pub fn install_crash_reporter(prop: &str) {
+    let dir = format!("{}/replays/{}", out_root(), prop);
+    let _ = std::fs::create_dir_all(&dir);
+    let path = format!("{}/native-crash.json", dir);
+    unsafe {
+        let p = &mut *std::ptr::addr_of_mut!(crash::PROP);
+        for (i, b) in prop.bytes().take(7).enumerate() {
+            p[i] = b;
+        }
+        let dst = &mut *std::ptr::addr_of_mut!(crash::PATH);
+        let n = path.len().min(500);
+        dst[..n].copy_from_slice(&path.as_bytes()[..n]);
+        dst[n] = 0;
+        crash::PATH_LEN = n;
+        let mut sa: libc::sigaction = std::mem::zeroed();
+        sa.sa_sigaction = crash::handler as usize;
+        sa.sa_flags = libc::SA_ONSTACK;
+        libc::sigemptyset(&mut sa.sa_mask);
+        for sig in [libc::SIGSEGV, libc::SIGBUS, libc::SIGABRT] {
+            libc::sigaction(sig, &sa, std::ptr::null_mut());
+        }
+    }
+}
+
 /// Install a panic hook that prints nothing (panics of the subject are outcomes, not noise) but remembers
 /// where the panic came from, for `uncaught_panic`.
 pub fn silence_panics() {
@@ -596,6 +704,13 @@ pub fn beat(case: &str) {
         g.1.clear();
         g.1.push_str(case);
     });
+    // the same text where the native-crash reporter can read it without locks or allocation
+    let n = case.len().min(crash::CASE_MAX);
+    crash::CASE.with(|c| {
+        let buf: &mut [u8; crash::CASE_MAX] = unsafe { &mut *c.get() };
+        buf[..n].copy_from_slice(&case.as_bytes()[..n]);
+    });
+    crash::CASE_LEN.with(|l| l.set(n));
 }
 
 /// The thread is between cases (nothing to time out).
